@@ -267,6 +267,19 @@ func (b *Builder) inst(blk *ir.Block, in *am.Inst) {
 		x := blk.NewLandingPad(b.ts.Type(in.T), cl...)
 		x.Cleanup = in.Cleanup
 		b.finish(in, x)
+	case "catchpad":
+		cs := b.insts[in.ParentPad.I].(*ir.TermCatchSwitch)
+		var as []value.Value
+		for i := range in.Args {
+			as = append(as, a(i))
+		}
+		b.finish(in, blk.NewCatchPad(cs, as...))
+	case "cleanuppad":
+		var as []value.Value
+		for i := range in.Args {
+			as = append(as, a(i))
+		}
+		b.finish(in, blk.NewCleanupPad(b.value(in.ParentPad).(ir.ExceptionPad), as...))
 	default:
 		panic("emit: instruction " + in.Op + " not supported by the API emitter")
 	}
@@ -324,6 +337,24 @@ func (b *Builder) term(blk *ir.Block, in *am.Inst) {
 		}
 		x := blk.NewCallBr(b.value(in.Callee), b.args(in), bl(0), others...)
 		b.finish(in, x)
+	case "catchswitch":
+		var hs []*ir.Block
+		for _, h := range in.Handlers {
+			hs = append(hs, b.blocks[h])
+		}
+		var unwind *ir.Block
+		if !in.UnwindToCaller {
+			unwind = bl(0)
+		}
+		b.finish(in, blk.NewCatchSwitch(b.value(in.ParentPad).(ir.ExceptionPad), hs, unwind))
+	case "catchret":
+		b.finish(in, blk.NewCatchRet(a(0).(*ir.InstCatchPad), bl(0)))
+	case "cleanupret":
+		var unwind *ir.Block
+		if !in.UnwindToCaller {
+			unwind = bl(0)
+		}
+		b.finish(in, blk.NewCleanupRet(a(0).(*ir.InstCleanupPad), unwind))
 	default:
 		panic("emit: terminator " + in.Op + " not supported by the API emitter")
 	}
